@@ -910,7 +910,14 @@ func unop(i *interpreter, instr *ssa.UnOp, x value) value {
 			return -x
 		}
 	case token.MUL:
-		return load(mustDeref(instr.X.Type()), x.(*value))
+		if cp, ok := x.(castPtr); ok {
+			return cp.load()
+		}
+		p := x.(*value)
+		if p == nil {
+			panic(rtError("invalid memory address or nil pointer dereference"))
+		}
+		return load(mustDeref(instr.X.Type()), p)
 	case token.NOT:
 		return !x.(bool)
 	case token.XOR:
@@ -1339,24 +1346,16 @@ func conv(i *interpreter, t_dst, t_src types.Type, x value) value {
 			break // fail: no other conversions for string
 		}
 
-		// unsafe.Pointer -> *value
+		// unsafe.Pointer -> *T: keep the cell and remember the reinterpretation;
+		// only the []byte <-> string idiom is supported on load.
 		if ut_src.Kind() == types.UnsafePointer {
-			// TODO(adonovan): this is wrong and cannot
-			// really be fixed with the current design.
-			//
-			// return (*value)(x.(unsafe.Pointer))
-			// creates a new pointer of a different
-			// type but the underlying interface value
-			// knows its "true" type and so cannot be
-			// meaningfully used through the new pointer.
-			//
-			// To make this work, the interpreter needs to
-			// simulate the memory layout of a real
-			// compiled implementation.
-			//
-			// To at least preserve type-safety, we'll
-			// just return the zero value of the
-			// destination type.
+			up, _ := x.(unsafe.Pointer)
+			if up == nil {
+				return zero(t_dst)
+			}
+			if pt, ok := ut_dst.(*types.Pointer); ok {
+				return castPtr{p: (*value)(up), to: pt.Elem()}
+			}
 			return zero(t_dst)
 		}
 
@@ -1653,4 +1652,36 @@ func fandbits[F floaty](x, y F) F {
 		*(*uint64)(unsafe.Pointer(&x)) &= *(*uint64)(unsafe.Pointer(&y))
 	}
 	return x
+}
+
+// castPtr is a pointer obtained through unsafe.Pointer whose pointee is read
+// at a different type than it was stored.
+type castPtr struct {
+	p  *value
+	to types.Type
+}
+
+func (c castPtr) load() value {
+	v := *c.p
+	switch t := c.to.Underlying().(type) {
+	case *types.Basic:
+		if t.Kind() == types.String {
+			switch v := v.(type) {
+			case []value:
+				return mkString(v)
+			case string, symString:
+				return v
+			}
+		}
+	case *types.Slice:
+		if b, ok := t.Elem().Underlying().(*types.Basic); ok && b.Kind() == types.Byte {
+			switch v := v.(type) {
+			case string, symString:
+				return strBytes(v)
+			case []value:
+				return v
+			}
+		}
+	}
+	panic(unsupported(fmt.Sprintf("unsafe pointer reinterpretation to %s", c.to)))
 }
